@@ -246,6 +246,52 @@ pub mod verif_hooks {
             .map_err(|e| e.to_string())
     }
 
+    /// A stand-alone [`ForwardingMetadata`] (as `CompressorSpace::new` creates it).
+    pub struct VerifForwarding<VM: VMBinding>(ForwardingMetadata<VM>);
+
+    impl<VM: VMBinding> Default for VerifForwarding<VM> {
+        fn default() -> Self {
+            Self::new()
+        }
+    }
+
+    impl<VM: VMBinding> VerifForwarding<VM> {
+        /// `ForwardingMetadata::new`
+        pub fn new() -> Self {
+            VerifForwarding(ForwardingMetadata::new())
+        }
+        /// `ForwardingMetadata::release` (`CompressorSpace::release`)
+        pub fn release(&self) {
+            self.0.release()
+        }
+        /// `ForwardingMetadata::forward`
+        pub fn forward(&self, address: Address) -> Address {
+            self.0.forward(address)
+        }
+        /// `ForwardingMetadata::has_calculated_forwarding_addresses`
+        pub fn has_calculated_forwarding_addresses(&self) -> bool {
+            self.0.has_calculated_forwarding_addresses()
+        }
+        /// `ForwardingMetadata::scan_marked_objects` collected into a vector
+        pub fn scan_marked_objects(&self, start: Address, end: Address) -> Vec<ObjectReference> {
+            let mut v = vec![];
+            self.0.scan_marked_objects(start, end, &mut |o| v.push(o));
+            v
+        }
+        /// What `CompressorSpace::trace_mark_object` does to the metadata: set the first-word
+        /// mark (`CompressorSpace::test_and_mark`) and, if newly marked, the last-word mark
+        /// (`mark_last_word_of_object`). Returns whether the object was newly marked.
+        pub fn mark_object(&self, object: ObjectReference) -> bool {
+            verif_mark_object::<VM>(&self.0, object)
+        }
+        /// `ForwardingMetadata::calculate_offset_vector` for the region starting at
+        /// `region_start` with allocation cursor `cursor` (page aligned, as
+        /// `RegionPageResource` keeps it).
+        pub fn calculate_offset_vector(&self, region_start: Address, cursor: Address) {
+            verif_calculate_offset_vector::<VM>(&self.0, region_start, cursor)
+        }
+    }
+
     /// What `CompressorSpace::prepare` does for one region (clear the mark bits), plus clearing
     /// the offset vector so that every layout starts from the same metadata.
     pub fn verif_clear(start: Address, bytes: usize) {
@@ -256,7 +302,7 @@ pub mod verif_hooks {
     /// What `CompressorSpace::trace_mark_object` does to the metadata: set the first-word mark
     /// (`CompressorSpace::test_and_mark`) and, if newly marked, the last-word mark. Returns
     /// whether the object was newly marked.
-    pub fn verif_mark_object<VM: VMBinding>(
+    fn verif_mark_object<VM: VMBinding>(
         fm: &ForwardingMetadata<VM>,
         object: ObjectReference,
     ) -> bool {
@@ -274,7 +320,7 @@ pub mod verif_hooks {
 
     /// `ForwardingMetadata::calculate_offset_vector` for the region starting at `region_start`
     /// with allocation cursor `cursor` (page aligned, as `RegionPageResource` keeps it).
-    pub fn verif_calculate_offset_vector<VM: VMBinding>(
+    fn verif_calculate_offset_vector<VM: VMBinding>(
         fm: &ForwardingMetadata<VM>,
         region_start: Address,
         cursor: Address,
